@@ -216,6 +216,16 @@ func runC11(w *World) {
 				w.Violate("C11/liveness/handshake-failed", "after %v a well-formed handshake on a new connection failed: %v", seq, err)
 				return
 			}
+			if ph == StOpenSent && kind != 2 && w.Chance(1, 2, "open-then-close") {
+				// the remote's OPEN arrives and the connection dies right behind it: the
+				// reset may land before corebgp writes its KEEPALIVE reply
+				c.SendSeg(p.Speaker.OpenFrame())
+				for i, n := 0, w.Draw(12, "resetyields"); i < n; i++ {
+					w.Yield("c11.open-then-close")
+				}
+				seq[len(seq)-1] += "+open-first"
+				w.Probe("open-then-close")
+			}
 			endConn(c, kind)
 		case 5: // inbound session on an active peer, then it ends: dialling resumes at once
 			kind := w.Draw(3, "kind")
